@@ -1,5 +1,6 @@
 """C17 Includes resolve relative to the including file and run in global scope (DESIGN 4/C17)."""
 
+import copy
 import functools
 import itertools
 import re
@@ -87,6 +88,8 @@ def build_files(tree, labels, root, style, early):
             if style == 'separated' and j:
                 lines.append(f"systemLog('{name}-mid')")
             lines.append(line)
+            if style == 'twice' and j == 0:
+                lines.append(line)      # the same include line again, directly adjacent: fetched and executed once per statement
         if early == name:
             lines.append("return 'early-" + name + "'")   # a return WITH a value inside an included script ends only that script
         if style == 'in-function' and name == 'n0' and kids:
@@ -151,8 +154,10 @@ def run_case(tree, labels, root, style, early, prefix, which):
             options['urlFn'] = functools.partial(url_file_relative, root['base'])
         if root['sys'] is not None:
             options['systemPrefix'] = root['sys']
+        model = pristine = None
         try:
             model = bs.parse_script(root_text)
+            pristine = copy.deepcopy(model)
             res = ('ok', canon(bs.execute_script(model, options)))
         except bs.BareScriptRuntimeError as exc:
             res = ('raise', 'BareScriptRuntimeError', quoted_locations(str(exc)), None)
@@ -163,6 +168,8 @@ def run_case(tree, labels, root, style, early, prefix, which):
         if tape.error:
             raise HarnessError('implementation diverged from its recorded prefix: ' + tape.error)
         user = {k: canon(v) for k, v in glob.items() if k.startswith('g_') or k in ('lv', 'pa')}
+        if model is not None and model != pristine:
+            res = ('model-modified', res)       # executing includes must not write into the model (C08: execution never modifies the model)
     else:
         class RefSyntax(Exception):
             def __init__(self, url, line):
@@ -275,6 +282,8 @@ def plan(tier):
             (trees(2, 2), ('sib', 'up', 'sys'), 1, ('adjacent', 'separated'), False),
             (trees(1, 2), FORMS, 1, ('adjacent', 'separated'), False),
             (trees(2, 1), ('sib', 'sub', 'sys'), 1, ('in-function',), False),
+            (trees(2, 1), ('sib', 'sub', 'sys'), 1, ('twice',), False),
+            (trees(1, 2), ('sib', 'url'), 0, ('twice',), False),
             (trees(1, 2), ('sib', 'up'), 0, ('in-function',), False),
         ]
     return [
@@ -284,6 +293,8 @@ def plan(tier):
         (trees(1, 3), FORMS, 1, ('adjacent', 'separated'), False),
         (trees(2, 3), ('sib', 'up'), 1, ('adjacent',), False),
         (trees(3, 1), FORMS, 1, ('in-function',), False),
+        (trees(3, 1), FORMS, 1, ('twice',), False),
+        (trees(2, 2), ('sib', 'up', 'sys'), 1, ('twice',), False),
         (trees(2, 2), ('sib', 'up', 'sys'), 1, ('in-function',), False),
     ]
 
@@ -298,7 +309,7 @@ def cases(tier):
                     for style in styles:
                         if style == 'separated' and not any(len(c) > 1 for c in all_nodes(tree)):
                             continue
-                        if style == 'in-function' and not tree:
+                        if style in ('in-function', 'twice') and not tree:
                             continue
                         earlies = [None]
                         if early and ne:
